@@ -99,6 +99,8 @@ def atom_interval(a, env):
         if lo < 0:
             raise RangeViolation("to_bits of a possibly negative float [%s, %s]: the sign bit breaks monotonicity" % (float(lo), float(hi)))
         env.events.append(("to_bits", (lo, hi)))
+        if lo >= 2 ** 52:  # f64 magic-number range
+            return (Fraction(struct.unpack("<Q", struct.pack("<d", float(lo)))[0]), Fraction(struct.unpack("<Q", struct.pack("<d", float(hi)))[0]))
         return (Fraction(f32_bits(lo)), Fraction(f32_bits(hi)))
     if name in ("from_bits", "float.from_bits"):
         lo, hi = interval(args[0], env)
